@@ -112,7 +112,7 @@ func (m *mon) call(g *rg.G, id string, repr int, expect string, detail func(repr
 // judge compares IsPlanar(g) in the requested representations with the
 // certified truth.  It returns the library's verdict and whether the case is
 // clean.
-func (m *mon) judge(g *rg.G, truth bool, kind string, reprs int, detail func(repr string) interface{}) (verdict, clean bool) {
+func (m *mon) judge(g *rg.G, truth bool, kind string, reprs int, confirm func() error, detail func(repr string) interface{}) (verdict, clean bool) {
 	c := m.c
 	id := gid(g)
 	expect := fmt.Sprintf("IsPlanar = %v (certificate verified: %s)", truth, kind)
@@ -128,6 +128,14 @@ func (m *mon) judge(g *rg.G, truth bool, kind string, reprs int, detail func(rep
 		}
 		verdict = got
 		if got != truth {
+			if confirm != nil {
+				// the certificate was verified for an isomorphic copy: verify its image on this labelling before reporting
+				if err := confirm(); err != nil {
+					c.Obs("uncertified", 1)
+					c.Inconclusive(fmt.Sprintf("disagreement on %s but the transformed certificate was rejected: %v", id, err))
+					return got, false
+				}
+			}
 			name := "dense"
 			if rp == sparse {
 				name = "sparse"
@@ -211,7 +219,7 @@ func (m *mon) certified(label string, g *rg.G, ct *planarity.Cert, reprs int) (v
 	c.Obs("cert:"+kind, 1)
 	m.sizeObs(g)
 	m.nontrivial(g)
-	return m.judge(g, ct.Planar, kind, reprs, func(repr string) interface{} {
+	return m.judge(g, ct.Planar, kind, reprs, nil, func(repr string) interface{} {
 		d := map[string]interface{}{"workload": label, "repr": repr}
 		graphJSON(d, g)
 		certJSON(d, ct, kind)
@@ -340,13 +348,22 @@ func (m *mon) sweepClass(g *rg.G, nperm int, r *engine.Rng, reprs int) {
 			}
 		}
 		c.Obs("relabellings", 1)
-		_, ok := m.judge(h, ct.Planar, kind, rp, func(repr string) interface{} {
+		hc := ct
+		confirm := func() error {
+			if p != nil {
+				hc = relabelCert(ct, p)
+			}
+			_, err := hc.Verify(h)
+			return err
+		}
+		_, ok := m.judge(h, ct.Planar, kind, rp, confirm, func(repr string) interface{} {
 			d := map[string]interface{}{"workload": "class sweep", "repr": repr, "class_representative": rep}
 			if p != nil {
 				d["relabelling"] = append([]int(nil), p...)
+				hc = relabelCert(ct, p)
 			}
 			graphJSON(d, h)
-			certJSON(d, ct, kind+" (verified for the class representative)")
+			certJSON(d, hc, kind)
 			return d
 		})
 		return ok
